@@ -209,7 +209,12 @@ impl BlockingManager {
         let client = {
             let mut registry = self.registries[db].write().unwrap();
             match registry.pop_first_waiter(key) {
-                Some(c) => c,
+                Some(c) => {
+                    // The client is being served: drop its registrations on the other keys of
+                    // its blocking call, or a later push there would be popped for nobody
+                    registry.unregister_client(c.conn_id);
+                    c
+                }
                 None => return, // No clients waiting on this key
             }
         };
